@@ -203,6 +203,7 @@ func runC35(c *an.Ctx) {
 	c.RequireMin("window updates paired", nPairs, 6)
 	// Verify: duplicate hash and nonce tests
 	if vf := mustFunc(c, "validator/increment.(*IncrementValidator).Verify"); vf != nil {
+		newestBlockWinsRule(c, vf, noncesF)
 		dup := &an.Guard{Name: "hash in window", FailValue: an.ATrue, MatchValue: func(v ssa.Value) bool {
 			e, ok := v.(*ssa.Extract)
 			if !ok || e.Index != 1 {
